@@ -94,26 +94,30 @@ def _judge(inst, log_access: int, requests: int, allow_unfinished_body: bool = F
 
 @harness(
     "C03",
-    dom={"cause": (0, 4), "p": (0, 6), "flavour": (0, 1), "j": (0, 3)},
+    dom={"cause": (0, 4), "p": (0, 6), "flavour": (0, 1), "j": (0, 3), "v": (0, 2)},
     split={"cause": "each"},
-    witnesses=[{"cause": 0, "p": 2, "flavour": 0, "j": 0}, {"cause": 2, "p": 0, "flavour": 1, "j": 1}, {"cause": 3, "p": 0, "flavour": 0, "j": 0}],
+    witnesses=[{"cause": 0, "p": 2, "flavour": 0, "j": 0, "v": 0}, {"cause": 2, "p": 0, "flavour": 1, "j": 1, "v": 0}, {"cause": 3, "p": 0, "flavour": 0, "j": 0, "v": 0},
+               {"cause": 0, "p": 1, "flavour": 0, "j": 0, "v": 1}, {"cause": 1, "p": 1, "flavour": 1, "j": 0, "v": 2}],
     budget=100,
     per_path=60,
-    bounds="one HTTP/1.1 request whose application runs 7 steps (read body, start, 3 chunks, wait for disconnect, receive again); closing cause in {client EOF, reset, failure of write #j (j<=3), Connection: close, keep-alive then EOF} placed before application step p (0..6); both worker flavours of _handle/Closed handling",
+    bounds="one HTTP/1.1 request whose application runs 7 steps (read body, start, 3 chunks, wait for disconnect, receive again); closing cause in {client EOF, reset, failure of write #j (j<=3), Connection: close, keep-alive then EOF} placed before application step p (0..6); both worker flavours of _handle/Closed handling; two further application styles that never start a response: wait for the disconnect and then return / raise",
     encodes=["hypercorn/protocol/http_stream.py::HTTPStream.handle", "hypercorn/protocol/http_stream.py::HTTPStream.app_send", "hypercorn/protocol/h11.py::H11Protocol.handle",
              "hypercorn/protocol/h11.py::H11Protocol._close_stream", "hypercorn/protocol/h11.py::H11Protocol._send_h11_event"],
     stubs=["tier B runtime; transport faults injected at the protocol_send boundary"],
 )
-def h1_closing(cause: int, p: int, flavour: int, j: int) -> bool:
+def h1_closing(cause: int, p: int, flavour: int, j: int, v: int) -> bool:
     """
-    pre: DOM(h1_closing, cause=cause, p=p, flavour=flavour, j=j)
+    pre: DOM(h1_closing, cause=cause, p=p, flavour=flavour, j=j, v=v)
     post: _
     """
     enter()
     cause = conc(cause, 0, 4)
     p = conc(p, 0, 6)
     j = conc(j, 0, 3)
+    v = conc(v, 0, 2)
     flavour = "asyncio" if conc(flavour, 0, 1) == 0 else "trio"
+    if v:
+        return _h1_closing_silent_app(cause, p, flavour, v)
     hdrs = [HOSTH] + ([(b"Connection", b"close")] if cause == 3 else [])
     data = h1_request("POST", b"/r", hdrs, [b"hello"], "content-length")
     conn = Conn(None, make_config(), flavour=flavour)
@@ -142,6 +146,38 @@ def h1_closing(cause: int, p: int, flavour: int, j: int) -> bool:
     if not why and conn.sched.errors:
         why = "exception escaped a task: %r" % (conn.sched.errors[0],)
     return done(why == "", cause=CAUSES[cause], p=p, flavour=flavour, j=j, why=why)
+
+
+def _h1_closing_silent_app(cause: int, p: int, flavour: str, v: int) -> bool:
+    """The client goes away before any response was started; the application notices and ends without responding."""
+    if cause not in (0, 1) or p > 2:
+        return done(True, skipped="silent application: client EOF / reset before steps 0..2 only")
+    steps = ["recv_body", "recv_until_disconnect", "return" if v == 1 else "raise"]
+    conn = Conn(None, make_config(), flavour=flavour)
+    app = GatedApp(conn.ctx, lambda scope, idx: list(steps), gated=True)
+    conn.proto.app = app
+    conn.proto.protocol.app = app
+    conn.feed(h1_request("POST", b"/r", [HOSTH], [b"hello"], "content-length"))
+    open_gates(conn, app, p)
+    if cause == 0:
+        conn.eof()
+    else:
+        conn.reset()
+    written_at_loss = len(conn.writes)
+    open_gates(conn, app, len(steps) + 1)
+    why = ""
+    if len(app.instances) != 1:
+        why = f"{len(app.instances)} application instances"
+    else:
+        inst = app.instances[0]
+        why = _judge(inst, conn.log.count("access"), 1)
+        if not why and not (inst.finished or inst.crashed):
+            why = f"application stuck at step {inst.step}"
+    if not why and cause == 1 and len(conn.writes) > written_at_loss:
+        why = f"{len(conn.writes) - written_at_loss} write(s) after the connection was reset"
+    if not why and [e for e in conn.sched.errors if not (v == 2 and False)]:
+        why = "exception escaped a task: %r" % (conn.sched.errors[0],)
+    return done(why == "", cause=CAUSES[cause], p=p, flavour=flavour, app=["", "returns without responding", "raises without responding"][v], why=why)
 
 
 # ------------------------------------------------------------------ HTTP/2 per-stream closing
